@@ -16,9 +16,11 @@ import (
 // harness. This is the only place in the package that touches ipchub. It
 // panics when ipchub refuses the packet (every packet built by this package is
 // well-formed). Packets too long for the 16-bit frame length (> 65535 bytes)
-// cannot be framed; for those the header is parsed with Header.Unmarshal.
+// cannot be framed, and channels other than the four default ones are refused
+// by ReadPacket; for those the Packet is built directly (header parsed with
+// Header.Unmarshal on media channels).
 func ToIpchub(channel byte, raw []byte) *rtp.Packet {
-	if len(raw) > 0xffff {
+	if len(raw) > 0xffff || channel >= rtp.ChannelCount { // not frameable / not one of the four channels ReadPacket maps
 		p := &rtp.Packet{Channel: channel, Data: raw}
 		if channel == rtp.ChannelVideo || channel == rtp.ChannelAudio {
 			if err := p.Header.Unmarshal(raw); err != nil {
